@@ -237,7 +237,8 @@ fn check_type(ty: SignType, name: &str, expect: Option<(u8, u8, u32, u32)>, rep:
                     off[8] = block[5];
                     off[5] = 0;
                 }
-                (_, 3) | (_, 4) => continue,
+                (_, 3) => off[7] = 0,
+                (_, 4) => continue,
                 (4, 0) => off[5] = off[5].wrapping_add(1),
                 (4, 1) => off[4] = off[4].wrapping_add(8),
                 (4, _) => off[7] = 0,
@@ -250,6 +251,25 @@ fn check_type(ty: SignType, name: &str, expect: Option<(u8, u8, u32, u32)>, rep:
             }
             // ... and the off-size block ALONE: the sign takes its size from the block's size fields (the sum of the four panel
             // widths / the width byte, and the height), whatever the type's own size is, and stores pages of that size
+            // (a page of the GENUINE size after the off-size block alone: whether it is kept is for the reference machine to say)
+            {
+                let gimg = RefPage::new(8, w, h).image();
+                let mut msgs = vec![RefMsg::Request(own, O_RECV_CFG), RefMsg::Data { offset: 0, data: off.clone() }, RefMsg::Count(1), RefMsg::Query(own), RefMsg::Request(own, O_RECV_PIX)];
+                msgs.extend(gimg.chunks(16).enumerate().map(|(i, c)| RefMsg::Data { offset: (i * 16) as u16, data: c.to_vec() }));
+                msgs.push(RefMsg::Count(gimg.len().div_ceil(16) as u16));
+                msgs.push(RefMsg::Query(own));
+                let mut pair = Pair::new(own, false);
+                for m in &msgs {
+                    let out = vsx::step(&mut pair, m);
+                    let trouble = if out.panic.is_some() { Some("panicked".to_string()) } else { out.diffs.first().map(|(cls, d)| format!("{}: {}", cls, d)) };
+                    if let Some(t) = trouble {
+                        let what = format!("configured with a block of this family and id whose size fields were changed, then sent a page of the type's own size: {}", t);
+                        rep.violation(MON_T, "virtual_sign_misreads_the_size_fields", &format!("{}:{}:genuine-page", name, tweak), format!("{}: {}", name, what), J::obj(vec![("type", J::s(name)), ("off_size_block", J::hex(&off)), ("observed", J::s(what.clone()))]));
+                        break;
+                    }
+                }
+                rep.count("virtual_sign_genuine_page_after_an_off_size_block");
+            }
             if let Some((ow, oh)) = refs::block_dims(&off) {
                 if ow > 0 && oh > 0 {
                     let oimg = RefPage::new(7, ow, oh).image();
